@@ -118,6 +118,29 @@ def run(ctx):
                 ctx.violation('member-changed', dict(case, member=name), upd['members'].get(name), ref['members'].get(name), {'member': name})
         if sorted(upd['manifest'] or []) != sorted(ref['manifest'] or []):
             ctx.violation('manifest-changed', case, upd['manifest'], ref['manifest'], {})
+        # one UserFields object used for several operations: each one starts from the source again
+        o1 = io.BytesIO(); o2 = io.BytesIO()
+        uo = UserFields(io.BytesIO(src), o1)
+        d1 = {k: v for k, v in list(data.items())[:1]}
+        d2 = {k: v for k, v in list(data.items())[1:]}
+        try:
+            uo.update(dict(d1)); uo.dest_file = o2; uo.update(dict(d2))
+            after_both = uo.list_fields_and_values()
+            want2 = []
+            for x in alld:
+                v = x['value']
+                if x['name'] in d2:
+                    v = d2[x['name']]
+                    if x['type'] == 'boolean': v = {'yes': 'true', '1': 'true', 'true': 'true', 'no': 'false', '0': 'false', 'false': 'false'}[v.lower()]
+                want2.append((x['name'], x['type'], v))
+            got2 = list(listing(o2.getvalue()))
+            if got2 != want2:
+                ctx.violation('second-update-of-same-object', dict(case, first=d1, second=d2), got2, want2, {})
+            srcl = list(listing(src))
+            if list(after_both) != srcl:
+                ctx.violation('listing-after-update-of-same-object', dict(case, first=d1, second=d2), list(after_both), srcl, {})
+        except ValueError:
+            pass
         # reading never modifies the source
         u = UserFields(io.BytesIO(src)); u.list_fields(); u.list_values(names[:2]); u.get(names[0] if names else 'x'); u.get_type_and_value('nope')
         if src != before: ctx.violation('source-modified', case, 'source bytes changed by list/get', 'unchanged', {})
